@@ -526,11 +526,26 @@ struct Engine {
     oi.primary = ai;
     const bool ent_before = a.entitled;
     const std::string sta = st(a);
-    int op = rng.below(30);
+    int op = rng.below(31);
     long ret_idx = -2, exp_idx = -2;
     threw = false;
     multi_grow = false;
     switch (op) {
+      case 30: {
+        // narrow size types: fill the vector up to exactly max_size() (size == capacity == the maximum of the size_type is a legal state
+        // whose encoding sits next to the special values of the size words); the following operations of the history shrink it again
+        if (sizeof(SizeT) != 1 || I::kFixed || !rng.chance(1, 2)) return;
+        const uintmax_t n = I::limit();
+        const bool exact = rng.chance(1, 2);
+        set_op(exact ? "reserve(max)+resize(max_size)" : "resize(max_size)", sta, "fills", fmt("P%d n=%ju", ai, n));
+        oi.point = sz;
+        oi.grow_ok = bitP(ai);
+        if (exact) window([&] { v.reserve(static_cast<SizeT>(n)); });
+        if (!threw) window([&] { v.resize(static_cast<SizeT>(n)); });
+        mo.resize(n, EI<E>::norm(Val(0, 0)));
+        a.entitled = false;
+        break;
+      }
       case 0: {  // push_back(const&)
         if (!room || !EI<E>::kCopyable) return;
         Val x = nv();
